@@ -34,7 +34,7 @@ func representative(fr *frame, v value) string {
 				if e.t.lo >= '0' && e.t.hi <= '9' {
 					out[i] = '0'
 				} else {
-					inconclusive("template text with non-digit symbolic byte")
+					out[i] = byte(fr.concretize(e))
 				}
 			default:
 				inconclusive("template text with opaque bytes")
@@ -140,7 +140,13 @@ func init() {
 			// general template: native execution on concrete data only
 			text, ok := tm.text.(string)
 			if !ok {
-				inconclusive("general template with symbolic text")
+				// enumerate the symbolic bytes and re-parse natively
+				text = fr.concretizeString(tm.text.(*symString)).(string)
+				np, perr := template.New(tm.name).Parse(text)
+				if perr != nil {
+					return fr.i.mkError(perr.Error()), true
+				}
+				tm.parsed = np
 			}
 			nm := map[string]int32{}
 			if m != nil {
